@@ -32,10 +32,13 @@ Scn == [binding : Bindings, typ : {"SAMLRequest", "SAMLResponse", "SAMLart"}, ms
         \* additionally a parameter with an empty value ("next=") -- all of it belongs to the destination and stays as it is
         locqKind : {"pair", "bare", "blank"},
         \* the message text starts with an XML declaration: as the tool writes it, or in another legal spelling
-        decl : {"none", "tool", "short", "standalone"}]
+        decl : {"none", "tool", "short", "standalone"},
+        \* SOAP header blocks that travel with the message (PAOS: paos:Request, ecp:RelayState): none, one, two
+        headers : {0, 1, 2}]
 WellFormed(s) ==
     /\ (s.signed => s.binding = "redirect")
     /\ (~s.locq => s.locqKind = "pair")
+    /\ (s.headers # 0 => s.binding = "soap")
     /\ (s.locqKind # "pair" => s.msg = <<>> /\ ~s.signed)
     /\ (s.typ = "SAMLart" => s.binding = "redirect" /\ ~s.signed /\ s.msg = <<>>)
     /\ (s.decl # "none" => s.binding = "soap")                    \* message text starts with an XML declaration line (tool output)
@@ -79,7 +82,8 @@ Wire(s) ==
             <<"INPUT", "name", s.typ, "QUOT">> \o HtmlEsc(B64(s.msg)) \o <<"QUOT">>
             \o (IF s.relay # None /\ s.relay # <<>> THEN <<"INPUT", "name", "RelayState", "QUOT">> \o HtmlEsc(s.relay) \o <<"QUOT">> ELSE <<>>)
       [] OTHER ->   \* soap: the message text is spliced into the Body; a leading declaration line is removed
-            <<"ENV", "BODY">> \o (IF s.decl # "none" /\ ~FixedSoap THEN SelectSeq(s.msg, LAMBDA c : c # "nl") ELSE s.msg) \o <<"/BODY", "/ENV">>
+            <<"ENV">> \o (IF s.headers = 0 THEN <<>> ELSE <<"HEADER">> \o [i \in 1..s.headers |-> "block"] \o <<"/HEADER">>) \o <<"BODY">>
+            \o (IF s.decl # "none" /\ ~FixedSoap THEN SelectSeq(s.msg, LAMBDA c : c # "nl") ELSE s.msg) \o <<"/BODY", "/ENV">>
 
 \* ---- an independent reader
 RECURSIVE SplitAt(_, _, _)
@@ -115,7 +119,10 @@ UrlOK == scn.binding \in {"redirect", "artifact"} =>
 PostOK == scn.binding = "post" =>
             \* quotes delimit values only: two per field
             Cardinality({i \in 1..Len(Wire(scn)) : Wire(scn)[i] = "QUOT"}) = 2 * (IF scn.relay # None /\ scn.relay # <<>> THEN 2 ELSE 1)
-SoapOK == scn.binding = "soap" => SubSeq(Wire(scn), 3, Len(Wire(scn)) - 2) = scn.msg
+\* what stands between BODY and /BODY is the message; the header blocks stand in the header
+BodyStart(w) == CHOOSE i \in 1..Len(w) : w[i] = "BODY"
+SoapOK == scn.binding = "soap" => /\ SubSeq(Wire(scn), BodyStart(Wire(scn)) + 1, Len(Wire(scn)) - 2) = scn.msg
+                                   /\ Cardinality({i \in 1..Len(Wire(scn)) : Wire(scn)[i] = "block"}) = scn.headers
 Emit == /\ pc = "pack" /\ pc' = "done" /\ UNCHANGED scn
         /\ PrintT(<<"CASE", ToJson([scn |-> scn, modelOK |-> UrlOK /\ PostOK /\ SoapOK])>>)
 Spec == Init /\ [][Emit]_vars
